@@ -287,11 +287,12 @@ def tlc_jobs(tier):
                 job("q2", MaxOps=3, GlobalSets="GlobalsQuick"),
                 job("q3", Names='{"a","b"}', MaxOps=3, MaxDepth=2),
                 job("q4", MaxOps=3, NilVals="TRUE", GlobalSets="GlobalsEnv")]
-    return [job("t1", MaxOps=5, Interrupts="TRUE"),
-            job("t5", MaxOps=4, Leaves="TRUE", GlobalSets="GlobalsQuick"),
-            job("t2", MaxOps=4, MaxDepth=4, GlobalSets="GlobalsAll"),
-            job("t3", Names='{"a","b"}', MaxOps=4, MaxDepth=3, Interrupts="TRUE"),
-            job("t4", MaxOps=4, NilVals="TRUE", GlobalSets="GlobalsQuick")]
+    # thorough: the quick family with one more name / step where TLC still finishes in minutes; every case replayed, two spellings each
+    return [job("t1", MaxOps=4, Interrupts="TRUE"),
+            job("t5", MaxOps=3, Leaves="TRUE", GlobalSets="GlobalsQuick"),
+            job("t2", MaxOps=3, MaxDepth=3, GlobalSets="GlobalsAll"),
+            job("t3", Names='{"a","b"}', MaxOps=3, MaxDepth=3, Interrupts="TRUE"),
+            job("t4", MaxOps=3, NilVals="TRUE", GlobalSets="GlobalsQuick")]
 
 
 def scope_family(ck, tier, only_copy=False):
@@ -309,7 +310,7 @@ def scope_family(ck, tier, only_copy=False):
         cases += r.emitted
     if only_copy:
         cases = [c for c in cases if any(r["op"] in COPY_OPS for r in c["prog"])]
-    cap = 15000 if tier == "quick" else 600000
+    cap = 15000 if tier == "quick" else 90000
     if len(cases) > cap:
         ck.cov["sampled_from"] = len(cases)
         cases = rnd.sample(cases, cap)
